@@ -59,6 +59,16 @@ def make_data(case, d):
     else:
         target = np.round(2.0 * cls + 0.05 * np.arange(n), 4)
     df = pd.DataFrame({"dim_0": rows, "target": target})
+    more = case.get("more_features") or 0
+    if more and not case.get("extra_column"):
+        # several feature columns whose names are not in alphabetical order; the task's default
+        # feature set is every column but the target, in the order of the data set
+        names = ["zeta", "dim_10", "Alpha"][:more]
+        cols = {"dim_2": rows}
+        for q, nm in enumerate(names):
+            cols[nm] = [pd.Series(np.round(rng.normal(size=6) * (1.0 + q) + 3.0 * ((i + q) % 3), 4)) for i in range(n)]
+        cols["target"] = target
+        df = pd.DataFrame(cols)
     if case.get("extra_column"):
         # a column that is NOT a feature of the task (explicit feature list)
         extra = [pd.Series(np.round(rng.normal(size=6) * 5.0 + 20.0 * (i % 3), 4)) for i in range(n)]
@@ -99,7 +109,7 @@ def expected_records(case):
     out = {}
     for d in range(case["n_datasets"]):
         df = make_data(case, d)
-        X, y = df[["dim_0"]], df["target"]
+        X, y = df[["dim_0"] if "dim_0" in df.columns else [c for c in df.columns if c != "target"]], df["target"]
         for j in range(case["n_strategies"]):
             Est = doubles.CountingClassifier if case["task"] == "tsc" else doubles.CountingRegressor
             for fold, (tr, te) in enumerate(make_cv(case["cv"]).split(df, y)):
@@ -384,7 +394,7 @@ def cases(draw, all_points=True):
         "n_strategies": draw(st.integers(1, 3)), "n_inst": draw(st.sampled_from([8, 8, 10, 12, 9, 11])), "seed": draw(st.integers(0, 10 ** 5)),
         "cv": cv, "store": store, "predict_on_train": draw(st.sampled_from([True, True, False])),
         "save_fitted": draw(st.booleans()) if store == "disk" else False,
-        "crash_points": "all", "extra_column": draw(st.booleans()),
+        "crash_points": "all", "extra_column": draw(st.booleans()), "more_features": draw(st.sampled_from([0, 0, 1, 2, 3])),
     }
 
 
